@@ -74,20 +74,20 @@ def jobs(tier):
                         continue
                     cap = 5000
                 else:
-                    cap = 3000000
+                    cap = 120000 if dw == 3 else 25000
                 A(lambda dw=dw, al=al, div=div: L.SpiMasterInst(dw, al, spi_alphabet(dw, div), tag="/div%d" % div),
                   heavy=dw > 2, max_states=cap)
     A(lambda: L.SpiMasterInst(2, False, spi_alphabet(2, 2, lengths=(0, 1, 2, 3), words=(1,) if quick else (1, 2),
                                                      cs=((0, 0), (1, 0), (1, 1)), lbs=(0, 1)),
                               tag="/div2/cs,loopback,length 0..3"), heavy=True, max_states=800 if quick else 3000000)
-    A(lambda: L.SpiSlaveInst(2, L.prod((0, 1), (0, 1), (0, 1), (1, 2), (0,))), heavy=True, max_states=2000 if quick else 1500000)
+    A(lambda: L.SpiSlaveInst(2, L.prod((0, 1), (0, 1), (0, 1), (1, 2), (0,))), heavy=True, max_states=2000 if quick else 25000)
     # ---- (5) I2C machine: all command letters (incl. compound and overlapping ones), data pokes
     A(lambda: L.I2cInst(2, 1, i2c_alphabet(1, sdas=(1,)), tag="/all commands"), heavy=True, max_states=30000 if quick else 3000000)
     A(lambda: L.I2cInst(2, 0, i2c_alphabet(0, cmds=[(0, 0, 0, 0), (0, 0, 1, 0), (0, 0, 0, 1), (0, 1, 0, 0), (1, 0, 0, 0)],
                                            pokes=((0, 0, 0),)), tag="/sda free"), heavy=True, max_states=5000 if quick else 3000000)
 
     # ---- I2CMaster (registers + machine + pad stage): bus writes in every state (busy included), ext lines
-    A(lambda: L.I2cMasterInst(1, alphabet=i2cm_alphabet(), tag="/A"), heavy=True, max_states=2000 if quick else 1500000)
+    A(lambda: L.I2cMasterInst(1, alphabet=i2cm_alphabet(), tag="/A"), heavy=True, max_states=2000 if quick else 25000)
 
     # ---- mode B: realistic sizes
     B(lambda: L.mk_timer(32))
@@ -144,6 +144,17 @@ def corpus_jobs():
 def correspond(ctx):
     ctx.rule = ("one (state, letter) transition of the real core compared with the model at pin/port level; non-trivial = "
                 "the core is active in that cycle (counter enabled, frame or transfer in progress, command strobe)")
+    ctx.assumptions = [
+        "CSR-backed controls (Timer, Watchdog, SPIMaster with_csr=False) are driven as plain signals: the CSR bank is "
+        "C12's subject, the event manager C15's; only the raw event triggers are compared here",
+        "theorem hypotheses: tuning word / SPI clk_divider / I2C divider constant during a frame or transfer; "
+        "0 < tuning word < 2^32; 2 <= clk_divider < 2^16; 1 <= length <= data_width; I2C divider load >= 1; "
+        "uart_loopback_partial: at least 4 cycles per bit; uart_rx_tolerates_2pct: at least 16 cycles per bit",
+        "MultiReg synchronisers are two plain registers (metastability is C05's subject); the open-drain pads of I2CMaster "
+        "are simulated by a harness stand-in for Tristate (pad = oe ? 0 : ext)",
+    ]
+    ctx.extra_trusted = ["pin-level monitors of harness/c19lib.py (UART/SPI/I2C decoders, cycle counters) used by the "
+                         "failing-input search; they never consult the Lean model"]
     ctx.jobs = corpus_jobs() + jobs(ctx.tier)
     dis, bad = run_jobs(ctx, ctx.jobs)
     return dis
